@@ -68,6 +68,9 @@ pub fn data_elements_to_string(elements: &Vec<DataElement>) -> String {
     elements
         .iter()
         .map(|element| match element {
+            // A string containing a double quote can only have come from an
+            // unquoted item, and can only be read back as one.
+            DataElement::String(string) if string.contains('"') => string.to_string(),
             DataElement::String(string) => format!("\"{}\"", string),
             DataElement::Number(number) => number.to_string(),
         })
